@@ -34,13 +34,14 @@
                                                                                : cancel.is_canceled() ? kt : done
   Sleep::subscribe:  kf3  slot created holding the coroutine + cancel.set_co(sleep_co)  (timer armed next, no event)
                      k4   cancel.is_canceled() ? kt : done          kt  own slot.take() ? { para := Canceled ; schedule }
+  with `dz` (F16) `set_co(slot)` is  kd0/kd3  state.load >= 2 ?  kd1c/kd3c  co.clear()  :  kf0/kf3  co.store(slot)
   Yield / EventSender::subscribe: the coroutine goes to the ready list / the poller (folded into the switch-out)
   cancel():          c0   state.fetch_or(1)     c1  io.cancel() [io.take -> None]     c2  co.take()
                      c3 s slot.take() ? { para := Canceled ; schedule }
 
   The coroutine is a linear token: `slot s` (held by wait slot s), `rq` (entries in ready queues) are the real places
   next to "running" and "with the kernel tail before its store"; `loc` is the ghost summary the invariant ties them to.
-  Ghost fields (never read by a step): loc, yields, resumes, sawCancel, cancelRet, lastRes, usedSend, wfo, wtk, maxE, stale0.
+  Ghost fields (never read by a step): loc, yields, resumes, sawCancel, cancelRet, lastRes, usedSend, wfo, wtk, maxE, stale0, used, pw, badIntr.
 -/
 namespace MayVerif.Cancel
 
@@ -71,6 +72,7 @@ inductive PPc
 inductive KPc
   | off | k0 (s : Sid) | k1 (s : Sid) | k3 (s : Sid) | k4 (s : Sid) | kc (s : Sid) (c : CPc)
   | kf0 (s : Sid) | kf3 (s : Sid) | kt (s : Sid)        -- register-before-publish order (`fx = true`)
+  | kd0 (s : Sid) | kd1c (s : Sid) | kd3 (s : Sid) | kd3c (s : Sid)   -- `set_co` that looks at `is_disabled` first (`dz = true`, F16)
   deriving DecidableEq, Repr
 
 inductive EPc | idle | c (c : CPc)
@@ -93,6 +95,7 @@ structure Sh where
   nextS : Sid
   ov : Bool
   fx : Bool
+  dz : Bool
   kact : Nat
   -- ghost
   loc : Loc
@@ -106,12 +109,16 @@ structure Sh where
   wtk : Tid              -- the event actor that took the latest registration out of `co`
   maxE : Nat             -- event actors with an id ≥ maxE have never moved
   stale0 : Bool          -- the generator came out of the pool with a stale `Canceled` para
+  used : Sid → Bool      -- the slot has been the slot of some wait of this coroutine
+  pw : Option Sid        -- the wait in progress was entered with cancellation disabled, on a slot never used before
+  badIntr : Bool         -- `cancel()` (or a tail's re-check) resumed such a wait with para = Canceled (must stay false)
 
 /-- `slot.take()` by somebody who resumes / schedules what he finds; `p` = the para he sets first -/
 def takeSlot (sh : Sh) (s : Sid) (p : Option Para) : Sh :=
   if sh.slot s then
     { sh with slot := upd sh.slot s false, rq := sh.rq + 1, loc := .queued,
-              para := match p with | some v => v | none => sh.para }
+              para := match p with | some v => v | none => sh.para,
+              badIntr := sh.badIntr || (p == some .canceled && sh.pw == some s) }
   else sh
 
 /-- one step of `cancel()`; `me` = the event actor executing it (none: a kernel tail) -/
@@ -160,20 +167,24 @@ def pstep (sh : Sh) : PPc → Env → Option (Sh × PPc × Option KPc)
       else if sh.ov = false ∧ sh.kact ≠ 0 then none
       else match src with
         | .park s _ =>
-            some ({ sh with loc := .withK, yields := sh.yields + 1, kact := sh.kact + 1 }, .susp src,
-                  some (if sh.fx then .kf0 s else .k0 s))
+            some ({ sh with loc := .withK, yields := sh.yields + 1, kact := sh.kact + 1,
+                            used := upd sh.used s true, pw := if 2 ≤ sh.cst ∧ sh.used s = false then some s else none },
+                  .susp src, some (if sh.fx then (if sh.dz then .kd0 s else .kf0 s) else .k0 s))
         | .sleep =>
             if sh.fx then
-              some ({ sh with loc := .withK, nextS := sh.nextS + 1, yields := sh.yields + 1, kact := sh.kact + 1 },
-                    .susp src, some (.kf3 sh.nextS))
+              some ({ sh with loc := .withK, nextS := sh.nextS + 1, yields := sh.yields + 1, kact := sh.kact + 1,
+                              used := upd sh.used sh.nextS true,
+                              pw := if 2 ≤ sh.cst ∧ sh.used sh.nextS = false then some sh.nextS else none },
+                    .susp src, some (if sh.dz then .kd3 sh.nextS else .kf3 sh.nextS))
             else
             some ({ sh with slot := upd sh.slot sh.nextS true, loc := .slot sh.nextS, nextS := sh.nextS + 1,
-                            yields := sh.yields + 1, kact := sh.kact + 1 }, .susp src, some (.k3 sh.nextS))
-        | _ => some ({ sh with rq := sh.rq + 1, loc := .queued, yields := sh.yields + 1 }, .susp src, none)
+                            yields := sh.yields + 1, kact := sh.kact + 1, used := upd sh.used sh.nextS true },
+                  .susp src, some (.k3 sh.nextS))
+        | _ => some ({ sh with rq := sh.rq + 1, loc := .queued, yields := sh.yields + 1, pw := none }, .susp src, none)
   | .susp src, _ =>
       if sh.rq = 0 then none
       else
-        some ({ sh with rq := sh.rq - 1, loc := .running, resumes := sh.resumes + 1 },
+        some ({ sh with rq := sh.rq - 1, loc := .running, resumes := sh.resumes + 1, pw := none },
               if checks src then .yb src false else .ycl src, none)
   | .yb src short, _ =>
       if sh.cst = 1 && !sh.panicking then some (raise sh, .idle, none)
@@ -196,6 +207,11 @@ def kstep (sh : Sh) : KPc → Env → Option (Sh × KPc)
   | .kf0 s, _ => some ({ sh with cco := some s }, .k0 s)
   | .kf3 s, _ => some ({ sh with slot := upd sh.slot s true, loc := .slot s, cco := some s }, .k4 s)
   | .kt s, _ => some (kfin (takeSlot sh s (some .canceled)), .off)
+  -- `set_co` of F16: `is_disabled()` first; disabled ⇒ withdraw any registration, else register
+  | .kd0 s, _ => some (sh, if 2 ≤ sh.cst then .kd1c s else .kf0 s)
+  | .kd1c s, _ => some ({ sh with cco := none }, .k0 s)
+  | .kd3 s, _ => some (sh, if 2 ≤ sh.cst then .kd3c s else .kf3 s)
+  | .kd3c s, _ => some ({ sh with slot := upd sh.slot s true, loc := .slot s, cco := none }, .k4 s)
   | .kc s c, _ => match cstep sh none c with
     | (sh', some c') => some (sh', .kc s c')
     | (sh', none) => some (kfin sh', .off)
@@ -244,11 +260,13 @@ def step (s : St) (a : Actor) (e : Env) : Option St :=
 /-- `ov`: kernel tails may overlap (true = the code as it is); `p0`: the para the (pooled) generator starts with;
     `ns`: number of Park slots that exist already; `fx`: the subscribe side registers with `set_co` BEFORE it publishes
     the coroutine and cancels its OWN slot on the re-check (the order proposed in pending_fixes/C09-stale-set_co.patch);
-    `fx = false` is the pinned tree -/
-def init (ov : Bool) (p0 : Para) (ns : Nat) (fx : Bool := false) : St :=
-  { sh := { cst := 0, cco := none, slot := fun _ => false, rq := 0, para := p0, panicking := false, nextS := ns, ov := ov, fx := fx,
+    `fx = false` is the pinned tree; `dz`: `set_co` looks at `is_disabled()` first and, when cancellation is disabled,
+    withdraws the registration instead of registering (F16; on top of `fx`) -/
+def init (ov : Bool) (p0 : Para) (ns : Nat) (fx : Bool := false) (dz : Bool := false) : St :=
+  { sh := { cst := 0, cco := none, slot := fun _ => false, rq := 0, para := p0, panicking := false, nextS := ns, ov := ov, fx := fx, dz := dz,
             kact := 0, loc := .running, yields := 0, resumes := 0, sawCancel := false, cancelRet := false,
-            lastRes := .none, usedSend := false, wfo := 0, wtk := 0, maxE := 0, stale0 := p0 == .canceled },
+            lastRes := .none, usedSend := false, wfo := 0, wtk := 0, maxE := 0, stale0 := p0 == .canceled,
+            used := fun s => decide (s < ns), pw := none, badIntr := false },
     ppc := .idle, kpc := fun _ => .off, epc := fun _ => .idle }
 
 /-- every finite schedule: disabled choices are skipped, so `∀ sched` is every interleaving -/
